@@ -88,6 +88,14 @@ theorem idxOf_of_getElem? (sp : List Row) (r : Row) (i : Nat) (hnd : sp.Nodup) (
   rw [← heq]
   exact List.Nodup.idxOf_getElem hnd i hlt
 
+/-- the hypotheses of the specification theorems below hold for every datapoint of a dataset with unique
+identifier keys: its sorted partition has no repeated datapoint and the datapoint sits at some position of it. -/
+theorem position_exists (part : List String) (o : Order) (d : DS) (w : d.WF) (r : Row) (hr : r ∈ d.rows) :
+    (sortedPart part o d.rows r).Nodup ∧ ∃ i : Nat, (sortedPart part o d.rows r)[i]? = some r := by
+  refine ⟨sortedPart_nodup part o d.rows r (rows_nodup_of_WF d w), ?_⟩
+  have hm : r ∈ sortedPart part o d.rows r := (mem_sortedPart part o d.rows r r).2 ⟨hr, rfl⟩
+  exact List.getElem?_of_mem hm
+
 /-! ### frames -/
 
 /-- lower / upper bound of a frame relative to position `i` (`none` = unbounded). -/
